@@ -5,7 +5,7 @@ import ast
 from ..core import AnalysisError, where, norm
 from ..consteval import Evaluator, NotConst
 from ..liftforms import LifterModel
-from ..lifter import LiftError, Term, walk_terms
+from ..lifter import LiftError, Term, walk_terms, get_size
 from ..shapes import u
 from ..srcmodel import walk_no_nested
 from . import c10_common
@@ -118,6 +118,7 @@ def run(ctx, report):
 
     # operators used by the lifter
     uses = {}
+    mixed = {}
     for inst in L.lift_all():
         if inst.func is None or inst.unknown:
             continue
@@ -128,6 +129,14 @@ def run(ctx, report):
                 for x in walk_terms(aff):
                     if x.kind == 'Op' and isinstance(x.op, str):
                         uses.setdefault(x.op, {}).setdefault(len(x.args), inst.func.name)
+                        try:
+                            ws = [get_size(a) for a in x.args if isinstance(a, Term)]
+                        except Exception:
+                            ws = []
+                        ws = [w for w in ws if isinstance(w, int) and w]
+                        if len(set(ws)) > 1 and all(y.op in deal for a in x.args if isinstance(a, Term) for y in walk_terms(a) if y.kind == 'Op'):
+                            # (operands that contain an uninterpreted operator never become constants: the type check is not reached)
+                            mixed.setdefault(x.op, {}).setdefault((inst.func.name, '/'.join(str(w) for w in ws)), inst.name)
     if len(uses) < 60:
         raise AnalysisError('only %d operator strings collected from the lifter templates' % len(uses))
     report.analysed['lifter_operators'] = len(uses)
@@ -161,6 +170,37 @@ def run(ctx, report):
             else:
                 R1.violation(inst, 'deal_op:unguarded-dispatch', 'eval_ExprOp indexes deal_op[e.op] without testing membership: uninterpreted operators such as %r '
                              'raise KeyError as soon as all their operands are constants' % op, where(ea, eo))
+
+    # operand-width check of eval_ExprOp: operators the lifter builds with operands of different widths must be exempt
+    no_check = None
+    for st in cls.body:
+        if isinstance(st, ast.Assign) and u(st.targets[0]) == 'op_size_no_check':
+            try:
+                no_check = list(Evaluator({}).ev(st.value))
+            except NotConst as e:
+                raise AnalysisError('op_size_no_check not a literal list: %s' % e)
+    eo_txt = u(eo)
+    if no_check is None or 'self.op_size_no_check' not in eo_txt or 'types_tab' not in eo_txt:
+        raise AnalysisError('eval_ExprOp no longer checks operand types against op_size_no_check: the mixed-width rule has to be re-read')
+    for op in sorted(no_check):
+        inst = 'no-check %r' % op
+        if op in deal or op in uses:
+            R1.ok(inst, sample='%r exempt from the operand-type check, is an operator' % op, nontrivial=False)
+        else:
+            R1.violation(inst, 'no-check:%s:not-an-operator' % op, 'op_size_no_check lists %r, which is neither a deal_op key nor an operator the lifter builds '
+                         '(a misspelt entry leaves the intended operator checked)' % op, where(ea, cls))
+    for op in sorted(mixed):
+        inst = 'mixed-width %r' % op
+        if op not in deal:
+            R1.ok(inst, nontrivial=False)
+        elif op in no_check:
+            R1.ok(inst, sample='%r built with operand widths %s, exempt from the type check' % (op, sorted(set(w for f, w in mixed[op]))))
+        else:
+            for fname in sorted(set(f for f, w in mixed[op])):
+                ws = sorted(w for f, w in mixed[op] if f == fname)
+                R1.violation(inst + ':' + fname, 'deal_op:%s:mixed-widths:%s' % (op, fname),
+                             'the lifter function %s builds %r with operands of widths %s; eval_ExprOp raises "invalid cast" when they are constants '
+                             '(operator not in op_size_no_check)' % (fname, op, ws), where(ea, eo))
 
     R2 = report.rule('C06.D2', 'evaluators of flattened (n-ary) operators consume every operand', floor=5)
     for op in op_assoc:
@@ -331,6 +371,14 @@ def run(ctx, report):
         if fn0 is None:
             continue
         inst = 'denotation %r (%s)' % (op, deal[op])
+        # contradiction rule: operands are unsigned modular integers (uintN); a sign decision made by comparing one with 0
+        # is constant, so one branch of the evaluator is dead and the other handles both signs
+        for n in ast.walk(fn0):
+            if isinstance(n, ast.Compare) and len(n.ops) == 1 and isinstance(n.ops[0], (ast.Lt, ast.GtE)) and u(n.left).startswith('args[') \
+                    and isinstance(n.left, ast.Subscript) and isinstance(n.comparators[0], ast.Constant) and n.comparators[0].value == 0:
+                R5.violation(inst + ':sign', 'denot:%s:sign-test-on-unsigned' % op,
+                             '%s decides the sign of %s with `%s`: operands are unsigned fixed-width integers, the test is constant' % (deal[op], u(n.left), u(n)),
+                             where(ea, n), witness="ExprOp(%r, ExprInt32(0x80000000), ExprInt32(4)) evaluates as a logical shift" % op)
         if op in FOLD:
             rets, folds, ok = straightline(fn0)
             if folds and folds[0][0] == FOLD[op] and folds[0][1].replace(' ', '') == 'args[1:]' and folds[0][2] == 'args[0]':
@@ -394,6 +442,34 @@ def run(ctx, report):
             if not rets:
                 problems.append('no returned expression')
             for r in rets[:1]:
+                # peel a final mask / widening cast around the OR of the two halves
+                while True:
+                    if isinstance(r, ast.BinOp) and isinstance(r.op, ast.BitAnd) and ('args[' in u(r.left)) != ('args[' in u(r.right)):
+                        r = r.left if 'args[' in u(r.left) else r.right
+                    elif isinstance(r, ast.Call) and len(r.args) == 1 and not r.keywords and u(r.func) in ('int', 'uint64', 'long'):
+                        r = r.args[0]
+                    else:
+                        break
+                if carry:
+                    # the (op_size+1)-bit quantity must be built from widened operands: args[i] is a fixed-width modular integer
+                    par = {}
+                    for n in ast.walk(r):
+                        for ch in ast.iter_child_nodes(n):
+                            par[id(ch)] = n
+                    for n in ast.walk(r):
+                        if isinstance(n, ast.BinOp) and isinstance(n.op, ast.LShift):
+                            for leaf in ast.walk(n.left):
+                                if isinstance(leaf, ast.Subscript) and u(leaf.value) == 'args':
+                                    pl, widened = par.get(id(leaf)), False
+                                    while pl is not None and pl is not n:
+                                        if isinstance(pl, ast.Call) and u(pl.func) in ('int', 'uint64', 'long'):
+                                            widened = True
+                                        pl = par.get(id(pl))
+                                    if not widened:
+                                        problems.append('operand %s is shifted left in its own fixed-width type (its top bit is lost before widening)' % u(leaf))
+                    problems = sorted(set(problems))
+                    if problems:
+                        break
                 if not (isinstance(r, ast.BinOp) and isinstance(r.op, ast.BitOr)):
                     problems.append('result is not the OR of two shifted halves')
                     break
